@@ -36,7 +36,9 @@ TRUSTED = [
 ]
 ASSUMPTIONS = ['equal_interval needs two distinct finite values (min < max; otherwise the k intervals are undefined and np.arange raises)', 'NumPy backend only (Dask equality is C01); bins passed to reclassify are ascending and NaN-free (the property\'s domain)']
 PARTIAL = [
-    'natural_breaks optimality (minimum within-class SSD): checked by the exact-arithmetic oracle on small inputs, not a Coq theorem',
+    'natural_breaks: the Fisher-Jenks recurrence is proved optimal for a FUNCTIONAL exact-rational model (C12_jenks_min_lower_bound / _attained); '
+    'that the float32 matrices of _run_numpy_jenks_matrices and the back-tracking of _run_jenks compute that recurrence is tied only by the '
+    'correspondence (the implementation\'s partition attains the model\'s minimum on small exact inputs), not proved',
     'equal_interval / quantile bin construction: oracle only (float arange / percentile are NumPy primitives)',
 ]
 
@@ -303,6 +305,7 @@ def check_datadriven_oracle(ctx, fn, a, k, out, bins, case):
 def run(ctx):
     classify = _impl()
     pending = []
+    jenks_pending = []
     # ---- reclassify: exhaustive positions --------------------------------
     for case in gen_reclass_cases(ctx):
         ctx.case(case)
@@ -399,6 +402,17 @@ def run(ctx):
             bins = [float(b) for b in cap.calls[0][0].tolist()]
             nvs = [float(b) for b in cap.calls[0][1].tolist()]
         check_datadriven_oracle(ctx, fn, a, k, out, bins, case)
+        if fn == 'natural_breaks' and f32exact and ctx.model is not None:
+            finv = sorted(Fraction(v) for r_ in to_floats(a) for v in r_ if not (math.isnan(v) or math.isinf(v)))
+            if len(set(finv)) >= k and len(finv) <= 16:
+                groups = {}
+                for rv, ro in zip(to_floats(a), out):
+                    for v, o in zip(rv, ro):
+                        if not (math.isnan(v) or math.isinf(v)) and not math.isnan(o):
+                            groups.setdefault(int(o), []).append(Fraction(v))
+                got = sum(ssd(g) for g in groups.values())
+                sc = xvio.scale_for(finv)
+                jenks_pending.append(('jenksmin %d %s' % (k, xvio.lst(finv, sc)), sc, got, case))
         if bins is not None and not any(math.isnan(b) for b in bins):
             data = to_floats(a)
             s = xvio.scale_for([v for r in data for v in r] + bins)
@@ -406,6 +420,22 @@ def run(ctx):
                 line = 'reclass %s %s %s' % (xvio.lst(bins, s), xvio.lst(nvs[:len(bins)], 1), xvio.grid(data, s))
                 pending.append((line, 1, out, dict(case, bins=bins), fn + '/_bin'))
     run_model_cases(ctx, pending)
+    # natural_breaks: the implementation's partition must attain the Coq model's (proved-optimal) DP value
+    if ctx.model is not None and jenks_pending:
+        outs = ctx.model.run([p[0] for p in jenks_pending])
+        for (line, sc, got, case), mo in zip(jenks_pending, outs):
+            ctx.traces += 1
+            try:
+                num, den = mo.split('/')
+                best = Fraction(int(num, 0), int(den, 0)) / (sc * sc)
+            except Exception:
+                ctx.violation('correspondence', 'natural_breaks: model returned %s' % mo[:80], case)
+                continue
+            if abs(got - best) > best * Fraction(1, 10 ** 5) + Fraction(1, 10 ** 9):
+                kind = 'oracle' if got > best else 'correspondence'
+                ctx.violation(kind, 'natural_breaks: within-class SSD of the returned partition %s differs from the minimum %s '
+                              '(Coq model jenks_min, proved optimal)' % (float(got), float(best)),
+                              dict(case, got_ssd=float(got), min_ssd=float(best)))
 
 
 def search(ctx):
